@@ -52,6 +52,12 @@ def cases(res):
             for content, tbr in (("flat", 5000000), ("noise", 10000)):
                 add(20, {"rate_control_mode": rc, "min_qp_allowed": mn, "max_qp_allowed": mx, "target_bit_rate": tbr, "logical_processors": 1},
                     {"qmin": Q(mn), "qmax": Q(mx)}, content, 176, 144)
+    # two-pass VBR (first-pass statistics consumed by the second pass) between the same bounds
+    for (mn, mx) in ((10, 40), (30, 30), (50, 55)):
+        for content, tbr in (("noise", 20000), ("motion", 500000)):
+            add(40, {"rate_control_mode": 1, "min_qp_allowed": mn, "max_qp_allowed": mx, "target_bit_rate": tbr, "logical_processors": 2},
+                {"qmin": Q(mn), "qmax": Q(mx)}, content, 176, 144)
+            out[-1]["twopass"] = True
     # several GOPs at the rails: the per-GOP key-frame refinement of 1-pass VBR runs after the per-mode clamp
     for (mn, mx, ip) in ((10, 30, 31), (20, 20, 15), (40, 63, 15), (1, 12, 31)):
         for rc in (1, 2):
